@@ -263,6 +263,32 @@ def sign_encrypt_twice(res, drv, d):
     res.case(["encrypt-twice"])
     if arts[0] != arts[1]:
         res.spec_failures.append({"what": "two encryption runs differ outside the IV and ciphertext"})
+    # one encryptor object serving a sequence of requests: each result equals that of a fresh object for the same request
+    import importlib.util
+    from suit_generator.suit_encrypt_script_base import SuitKWAlgorithms
+    spec = importlib.util.spec_from_file_location("verif_encrypt_c18", common.REPO / "ncs" / "encrypt_script.py")
+    mod = importlib.util.module_from_spec(spec)
+    spec.loader.exec_module(mod)
+    blob = bytes(range(12)) + bytes(range(16)) + bytes(range(40))
+    reqs = [("aes-kw-256", bytes(40), 7), ("direct", b"", 7), ("direct", b"", 0x40022100), ("aes-kw-256", bytes(range(40)), 9), ("direct", None, 9),
+            ("aes-kw-256", None, 1), ("direct", b"", 1)]
+
+    def serve(enc, kw, cek, kid):
+        try:
+            return [x.hex() if isinstance(x, bytes) else x for x in enc.generate(blob, cek, kid, SuitKWAlgorithms(kw))]
+        except ValueError:
+            return "ValueError"
+        except BaseException as e:  # noqa
+            return type(e).__name__
+    shared = mod.suit_encryptor_factory()
+    for order in (reqs, list(reversed(reqs))):
+        for k, (kw, cek, kid) in enumerate(order):
+            got = serve(shared, kw, cek, kid)
+            fresh = serve(mod.suit_encryptor_factory(), kw, cek, kid)
+            res.case(["encryptor-reuse", k, kw, kid])
+            if got != fresh:
+                res.spec_failures.append({"request": [kw, cek.hex() if cek is not None else None, kid], "position": k, "reused_object": str(got)[:300], "fresh_object": str(fresh)[:300],
+                                          "what": "an encryptor object that served other requests before answers this request differently from a fresh one"})
 
 
 def run(tier: str, seed: int) -> int:
